@@ -1,0 +1,90 @@
+//go:build verif
+
+package remap
+
+// Contracts for govc (contract-based deductive verification, see /verif/DESIGN.md).
+// Comments only; compiled only with the build tag `verif`.
+
+//@ arith int
+//@ property C17
+//@ assumption shard counts are between 1 and 2^31 (what make can allocate); options passed to NewReMap set a prime >= 1
+//@ assumption xxhash is a deterministic function of its input (XXHash result is treated as an arbitrary uint64)
+//
+//@ pure maxu() uint64 = 18446744073709551615
+//@ pure rinv(r *ReMap) bool = 1 <= r.numbs && r.numbs <= 2147483648 && len(r.nps) == int(r.numbs) && r.nps[int(r.numbs)-1] == maxu() && (forall j int, k int :: 0 <= j && j < k && k < int(r.numbs) ==> r.nps[j] < r.nps[k])
+//@ pure sorted(a []uint64) bool = forall i int, j int :: 0 <= i && i <= j && j < len(a) ==> a[i] <= a[j]
+//
+//@ lemma mul_le(y uint64, a uint64, b uint64)
+//@   requires a <= b
+//@   ensures y * a <= y * b
+//
+//@ lemma mul_strict(y uint64)
+//@   requires 1 <= y
+//@   ensures forall a uint64, b uint64 :: { y * a, y * b } a < b ==> y * a < y * b
+//
+//@ lemma div_bound(n uint64)
+//@   requires 1 <= n
+//@   ensures (maxu() / n) * n <= maxu() && maxu() < (maxu() / n + 1) * n
+//
+//@ func funcval opt
+//@   trusted options given to NewReMap install a shard count in [1, 2^31]
+//@   ensures 1 <= o.prime && o.prime <= 2147483648
+//@   modifies o.prime
+//
+//@ func NewReMap
+//@   ensures #rinv result != nil && isfresh(result) && rinv(result)
+//@   modifies
+//@   loop 1
+//@     invariant 1 <= o.prime && o.prime <= 2147483648
+//@   loop 2
+//@     invariant #bounds 0 <= i && i <= r.numbs && r.numbs == o.prime && len(r.nps) == int(r.numbs) && y == maxu() / r.numbs && isfresh(r) && isfresh(r.nps)
+//@     invariant #filled forall j int :: 0 <= j && j < int(i) ==> r.nps[j] == y * (uint64(j) + 1)
+//@     use div_bound(r.numbs), mul_le(y, i + 1, r.numbs), mul_strict(y)
+//
+//@ func ReMap.Numbs
+//@   ensures result == r.numbs
+//@   modifies
+//
+//@ func SearchUInt64s
+//@   requires sorted(a)
+//@   ensures #range 0 <= result && result <= len(a)
+//@   ensures #below forall j int :: 0 <= j && j < result ==> a[j] < x
+//@   ensures #above forall j int :: result <= j && j < len(a) ==> a[j] >= x
+//@   modifies
+//
+//@ func ReMap.SearchIndex
+//@   requires rinv(r)
+//@   ensures #range 0 <= result && result < int(r.numbs)
+//@   ensures #unique x <= r.nps[result] && (result == 0 || r.nps[result-1] < x)
+//@   modifies
+//
+//@ func XXHash
+//@   trusted hash function: any uint64, no side effects; may panic for unsupported key types (ToBytes)
+//@   maypanic
+//@   modifies
+//
+//@ func HitGroup.Hit
+//@   trusted user-implemented interface method: assumed to return a value without side effects
+//@   modifies
+//
+//@ func ReMap.XHashIndex
+//@   requires rinv(r)
+//@   maypanic
+//@   ensures #range 0 <= result && result < int(r.numbs)
+//@   modifies
+//
+//@ func ReMap.SimpleIndex
+//@   requires rinv(r)
+//@   maypanic
+//@   ensures #range 0 <= result && result < int(r.numbs)
+//@   ensures #u8 tag(i) == tag(any(uint8(0))) ==> result == int(uint64(uint8(i)) % r.numbs)
+//@   ensures #i8 tag(i) == tag(any(int8(0))) ==> result == int(uint64(int8(i)) % r.numbs)
+//@   ensures #i16 tag(i) == tag(any(int16(0))) ==> result == int(uint64(int16(i)) % r.numbs)
+//@   ensures #u16 tag(i) == tag(any(uint16(0))) ==> result == int(uint64(uint16(i)) % r.numbs)
+//@   ensures #i32 tag(i) == tag(any(int32(0))) ==> result == int(uint64(int32(i)) % r.numbs)
+//@   ensures #u32 tag(i) == tag(any(uint32(0))) ==> result == int(uint64(uint32(i)) % r.numbs)
+//@   ensures #i64 tag(i) == tag(any(int64(0))) ==> result == int(uint64(int64(i)) % r.numbs)
+//@   ensures #u64 tag(i) == tag(any(uint64(0))) ==> result == int(uint64(i) % r.numbs)
+//@   ensures #int tag(i) == tag(any(int(0))) ==> result == int(uint64(int(i)) % r.numbs)
+//@   ensures #uint tag(i) == tag(any(uint(0))) ==> result == int(uint64(uint(i)) % r.numbs)
+//@   modifies
